@@ -84,6 +84,9 @@ paserk_h! {
     keytext_secret_t3: KeyText<AV, Secret>, b"k4.secret.", 13, None, true, 20;
     keytext_public_t2: KeyText<AV, Public>, b"k4.public.", 12, None, true, 20;
     keytext_v3_local_t3: KeyText<AV3, Local>, b"k3.local.", 12, None, true, 20;
+    pie_local_t2: PieWrappedKey<AV, Local>, b"k4.local-wrap.pie.", 20, None, true, 24;
+    pw_local_t2: PasswordWrappedKey<AV, Local>, b"k4.local-pw.", 14, None, true, 20;
+    seal_t2: SealedKey<AV>, b"k4.seal.", 10, None, true, 20;
     pie_local_t3: PieWrappedKey<AV, Local>, b"k4.local-wrap.pie.", 21, None, true, 24;
     pie_secret_t4: PieWrappedKey<AV, Secret>, b"k4.secret-wrap.pie.", 23, None, true, 26;
     pw_local_t3: PasswordWrappedKey<AV, Local>, b"k4.local-pw.", 15, None, true, 20;
@@ -263,7 +266,12 @@ fn token_strict<const L: usize, const FIX: bool>(dot: Option<usize>) {
             assert!(k == 0 || k == 2);
         }
     }
-    kani::cover!(r.is_ok(), "accept reachable");
+    // accept is reachable unless a segment has a length no base64url string can have (4k+1)
+    let acceptable = match dot {
+        Some(d) => d % 4 != 1 && (L - h - d - 1) % 4 != 1,
+        None => (L - h) % 4 != 1,
+    };
+    kani::cover!(!acceptable || r.is_ok(), "accept reachable");
     kani::cover!(r.is_err(), "reject reachable");
     core::mem::forget(r);
 }
@@ -277,6 +285,9 @@ macro_rules! token_h {
     )*};
 }
 token_h! {
+    token_p2_nodot: 11, None, memchr_none, true, 20;
+    token_p2_dot_f0: 12, Some(2), memchr_at2, true, 20;
+    token_p2_dot_f1: 13, Some(2), memchr_at2, true, 20;
     token_p4_nodot: 13, None, memchr_none, true, 20;
     token_p3_nodot: 12, None, memchr_none, true, 20;
     token_p0_nodot: 9, None, memchr_none, true, 20;
